@@ -28,6 +28,17 @@ package main
 //            relation is computed and proved closed in Coq (Effects/Flow.v).
 //   extwrites  library functions / callbacks that were counted as writes (diagnosis only)
 //   dyncalls   callbacks (function-typed parameters, fields, variables) it calls
+//   fwrites    fields "pkg.Type.field" such that it writes memory reached *through* that field
+//            of a shared value (x.f[i] = .., *x.f = .., m := x.f; m[i] = .., sort.Ints(x.f); not
+//            the plain assignment x.f = ..)
+//   fargflow   (callee, callee root, field): an argument reached through that field is bound
+//            to that root of the callee (a write of the callee through it is a write through
+//            the field)
+//   fieldalias (field, root): it stores into that field (x.f = e, T{f: e}, x.f[i] = e) a
+//            reference that may alias a parameter of its own (or a global, callback result...):
+//            the field then holds memory owned by the caller ("borrowed")
+//   fieldflow  (field, field'): it stores into field a reference read through field' of its
+//            receiver
 //   unknown    constructs the analysis does not understand: method values and method
 //            expressions, reflect, unsafe, cgo, go:linkname, bodiless functions, assignments
 //            whose target cannot be rooted, goto-style control in channel skeletons is handled
@@ -59,25 +70,30 @@ import (
 func init() { translators["effects"] = effectsTranslator }
 
 type finfo struct {
-	key       string
-	exported  bool
-	gwrites   map[string]bool
-	swrites   map[string]bool
-	calls     map[string]bool
-	scalls    map[string]bool
-	gostmts   int
-	chanops   int
-	dwrites   map[string]bool
-	argflow   map[[3]string]bool
-	extwrites map[string]bool
-	dyncalls  map[string]bool
-	unknown   map[string]bool
+	key        string
+	exported   bool
+	gwrites    map[string]bool
+	swrites    map[string]bool
+	calls      map[string]bool
+	scalls     map[string]bool
+	gostmts    int
+	chanops    int
+	dwrites    map[string]bool
+	argflow    map[[3]string]bool
+	extwrites  map[string]bool
+	dyncalls   map[string]bool
+	unknown    map[string]bool
+	fwrites    map[string]bool
+	fargflow   map[[3]string]bool
+	fieldalias map[[2]string]bool
+	fieldflow  map[[2]string]bool
 }
 
 func newFinfo(key string, exported bool) *finfo {
 	return &finfo{key: key, exported: exported, gwrites: map[string]bool{}, swrites: map[string]bool{}, calls: map[string]bool{},
 		scalls: map[string]bool{}, dwrites: map[string]bool{}, argflow: map[[3]string]bool{}, extwrites: map[string]bool{},
-		dyncalls: map[string]bool{}, unknown: map[string]bool{}}
+		dyncalls: map[string]bool{}, unknown: map[string]bool{}, fwrites: map[string]bool{}, fargflow: map[[3]string]bool{},
+		fieldalias: map[[2]string]bool{}, fieldflow: map[[2]string]bool{}}
 }
 
 type repoImporter struct {
@@ -321,8 +337,9 @@ var extWritesOnly = map[string]string{
 var retRoots = map[string]map[string]bool{}
 
 type tinfo struct {
-	roots map[string]types.Type // root -> type of the shared value it names
-	own   int                   // number of dereference steps that stay inside storage owned by the local variable
+	roots  map[string]types.Type // root -> type of the shared value it names
+	own    int                   // number of dereference steps that stay inside storage owned by the local variable
+	fields map[string]bool       // fields ("pkg.Type.field") the value was read through
 }
 
 func (t *tinfo) clone() *tinfo {
@@ -330,7 +347,21 @@ func (t *tinfo) clone() *tinfo {
 	for k, v := range t.roots {
 		c.roots[k] = v
 	}
+	for k := range t.fields {
+		c.addField(k)
+	}
 	return c
+}
+
+func (t *tinfo) addField(f string) bool {
+	if t.fields == nil {
+		t.fields = map[string]bool{}
+	}
+	if t.fields[f] {
+		return false
+	}
+	t.fields[f] = true
+	return true
 }
 
 // merge adds u's roots to t; returns whether anything changed.
@@ -345,6 +376,11 @@ func (t *tinfo) merge(u *tinfo, takeOwn bool) bool {
 	if takeOwn && u.own < t.own {
 		t.own = u.own
 		ch = true
+	}
+	for k := range u.fields {
+		if t.addField(k) {
+			ch = true
+		}
 	}
 	return ch
 }
@@ -364,6 +400,7 @@ type analyser struct {
 	changed   bool
 	impl      map[string][]*types.Func // method name -> repository methods
 	callFun   map[ast.Expr]bool        // expressions in call position
+	freshUse map[*ast.Ident]bool // uses of a variable dominated, in the same block, by an assignment of a fresh value to it
 	recording bool
 }
 
@@ -458,6 +495,77 @@ func (a *analyser) splitPath(e ast.Expr) (base ast.Expr, depth int) {
 	}
 }
 
+// fieldNames names every field of every named struct type of the repository.
+var fieldNames = map[*types.Var]string{}
+
+type fieldStep struct {
+	name       string
+	derefAfter int // dereference steps between the field and the end of the path
+}
+
+func (a *analyser) fieldName(v *types.Var) string {
+	if n, ok := fieldNames[v]; ok {
+		return n
+	}
+	p := a.fset.Position(v.Pos())
+	return fmt.Sprintf("anon.%s@%s:%d", v.Name(), filepath.Base(p.Filename), p.Line)
+}
+
+// pathFields lists the struct fields selected on the path e, outermost first.
+func (a *analyser) pathFields(e ast.Expr) (out []fieldStep) {
+	derefs := 0
+	for {
+		switch x := e.(type) {
+		case *ast.ParenExpr:
+			e = x.X
+		case *ast.StarExpr:
+			derefs++
+			e = x.X
+		case *ast.IndexExpr:
+			t := a.typeOf(x.X)
+			if t == nil {
+				return
+			}
+			switch t.Underlying().(type) {
+			case *types.Slice, *types.Map, *types.Pointer:
+				derefs++
+			case *types.Array, *types.Basic:
+			default:
+				return
+			}
+			e = x.X
+		case *ast.SliceExpr:
+			if t := a.typeOf(x.X); t != nil {
+				if _, ok := t.Underlying().(*types.Pointer); ok {
+					derefs++
+				}
+			}
+			e = x.X
+		case *ast.SelectorExpr:
+			sel, ok := a.info.Selections[x]
+			if !ok || sel.Kind() != types.FieldVal {
+				return
+			}
+			if fv, ok := sel.Obj().(*types.Var); ok {
+				out = append(out, fieldStep{a.fieldName(fv), derefs})
+			}
+			if sel.Indirect() {
+				derefs++
+			}
+			e = x.X
+		case *ast.TypeAssertExpr:
+			e = x.X
+		case *ast.UnaryExpr:
+			if x.Op != token.AND {
+				return
+			}
+			e = x.X
+		default:
+			return
+		}
+	}
+}
+
 func (a *analyser) globalName(obj types.Object) string { return obj.Pkg().Name() + "." + obj.Name() }
 
 // baseTaint gives the taint of a path base.
@@ -470,6 +578,9 @@ func (a *analyser) baseTaint(base ast.Expr) *tinfo {
 		}
 		if a.isPkgLevel(obj) {
 			return &tinfo{roots: map[string]types.Type{"g:" + a.globalName(obj): obj.Type()}, own: -1}
+		}
+		if a.freshUse[b] {
+			return nil
 		}
 		if t, ok := a.taint[obj]; ok {
 			return t
@@ -497,6 +608,9 @@ func (a *analyser) pathTaint(e ast.Expr, addr bool) *tinfo {
 		return nil
 	}
 	r := tb.clone()
+	for _, fs := range a.pathFields(e) {
+		r.addField(fs.name)
+	}
 	if depth > tb.own {
 		r.own = 0
 	} else {
@@ -881,14 +995,14 @@ func (a *analyser) assign(lhs, rhs ast.Expr) {
 		return
 	}
 	obj := a.obj(id)
-	if obj == nil || a.isPkgLevel(obj) {
+	if obj == nil || a.isPkgLevel(obj) || a.freshUse[id] {
 		return
 	}
 	t := a.exprTaint(rhs)
 	if t == nil {
 		return
 	}
-	h := &tinfo{roots: t.roots, own: 0}
+	h := &tinfo{roots: t.roots, own: 0, fields: t.fields}
 	if _, already := a.taint[obj]; !already {
 		switch obj.Type().Underlying().(type) {
 		case *types.Pointer, *types.Slice, *types.Map:
@@ -993,7 +1107,7 @@ func (a *analyser) collectAliases(body ast.Node) {
 							base, _ := a.splitPath(x.Args[0])
 							if id, ok := base.(*ast.Ident); ok {
 								if obj := a.obj(id); obj != nil && !a.isPkgLevel(obj) {
-									h := &tinfo{roots: t.roots, own: 0}
+									h := &tinfo{roots: t.roots, own: 0, fields: t.fields}
 									if _, already := a.taint[obj]; !already {
 										h.own = 1
 										a.setTaint(obj, h)
@@ -1049,6 +1163,9 @@ func (a *analyser) collectAliases(body ast.Node) {
 }
 
 func (a *analyser) writeThrough(t *tinfo, label string) {
+	for f := range t.fields {
+		a.fi.fwrites[f] = true
+	}
 	for r, ty := range t.roots {
 		if ty != nil {
 			// a function value cannot be written through, only called (see writeThroughCall)
@@ -1069,7 +1186,7 @@ func (a *analyser) writeThrough(t *tinfo, label string) {
 // function value cannot be written through (it can only be called; what a user supplied
 // callback does is the documented assumption of C19), so roots of function type are skipped.
 func (a *analyser) writeThroughCall(t *tinfo) bool {
-	u := &tinfo{roots: map[string]types.Type{}, own: 0}
+	u := &tinfo{roots: map[string]types.Type{}, own: 0, fields: t.fields}
 	for r, ty := range t.roots {
 		if ty != nil {
 			if _, isFn := ty.Underlying().(*types.Signature); isFn {
@@ -1109,12 +1226,25 @@ func (a *analyser) noteWrite(lhs ast.Expr, extra int, label string) {
 			a.unknown(lhs.Pos(), "assignment to non-variable %s", b.Name)
 			return
 		}
+		if a.freshUse[b] {
+			return
+		}
 		if t, ok := a.taint[obj]; ok && depth > t.own {
 			a.writeThrough(t, label)
+			for _, fs := range a.pathFields(lhs) {
+				if fs.derefAfter+extra > 0 {
+					a.fi.fwrites[fs.name] = true
+				}
+			}
 		}
 	case *ast.CallExpr:
 		if t := a.callResultTaint(b); t != nil {
 			a.writeThrough(t, label)
+			for _, fs := range a.pathFields(lhs) {
+				if fs.derefAfter+extra > 0 {
+					a.fi.fwrites[fs.name] = true
+				}
+			}
 		}
 	case *ast.CompositeLit:
 		if t := a.exprTaint(b); t != nil && depth > 0 {
@@ -1139,8 +1269,21 @@ func (a *analyser) walk(body ast.Node) {
 				}
 				a.noteWrite(l, 0, "")
 			}
+			for i, l := range x.Lhs {
+				var rhs ast.Expr
+				if len(x.Lhs) == len(x.Rhs) {
+					rhs = x.Rhs[i]
+				} else if len(x.Rhs) == 1 {
+					rhs = x.Rhs[0]
+				}
+				if fs := a.pathFields(l); len(fs) > 0 && rhs != nil {
+					a.noteStore(fs[0].name, rhs)
+				}
+			}
 		case *ast.IncDecStmt:
 			a.noteWrite(x.X, 0, "")
+		case *ast.CompositeLit:
+			a.noteLiteralStores(x)
 		case *ast.RangeStmt:
 			if x.Tok == token.ASSIGN {
 				if x.Key != nil {
@@ -1175,6 +1318,59 @@ func (a *analyser) walk(body ast.Node) {
 		}
 		return true
 	})
+}
+
+// noteStore: a reference is stored into (memory behind) the field.
+func (a *analyser) noteStore(field string, rhs ast.Expr) {
+	t := a.refArg(rhs)
+	if t == nil {
+		return
+	}
+	for f := range t.fields {
+		a.fi.fieldflow[[2]string{field, f}] = true
+	}
+	for r, ty := range t.roots {
+		if ty != nil {
+			if _, isFn := ty.Underlying().(*types.Signature); isFn {
+				continue
+			}
+		}
+		if r == "recv" {
+			continue
+		}
+		a.fi.fieldalias[[2]string{field, r}] = true
+	}
+}
+
+func (a *analyser) noteLiteralStores(x *ast.CompositeLit) {
+	t := a.typeOf(x)
+	if t == nil {
+		return
+	}
+	if p, ok := t.Underlying().(*types.Pointer); ok {
+		t = p.Elem()
+	}
+	st, ok := t.Underlying().(*types.Struct)
+	if !ok {
+		return
+	}
+	for i, el := range x.Elts {
+		var fv *types.Var
+		v := el
+		if kv, ok := el.(*ast.KeyValueExpr); ok {
+			v = kv.Value
+			if id, ok := kv.Key.(*ast.Ident); ok {
+				fv, _ = a.info.Uses[id].(*types.Var)
+			}
+		} else if i < st.NumFields() {
+			fv = st.Field(i)
+		}
+		if fv == nil {
+			a.unknown(el.Pos(), "composite literal element without a field")
+			continue
+		}
+		a.noteStore(a.fieldName(fv), v)
+	}
 }
 
 // selector flags method values, method expressions, reflect and unsafe.
@@ -1248,6 +1444,9 @@ func (a *analyser) call(x *ast.CallExpr) {
 			for _, b := range bound {
 				for r := range b.t.roots {
 					a.fi.argflow[[3]string{k, b.root, r}] = true
+				}
+				for f := range b.t.fields {
+					a.fi.fargflow[[3]string{k, b.root, f}] = true
 				}
 			}
 		}
@@ -1593,6 +1792,24 @@ func coqList(m map[string]bool) string {
 	return "[" + strings.Join(ks, "; ") + "]"
 }
 
+func coqPairs(m map[[2]string]bool) string {
+	var ks [][2]string
+	for k := range m {
+		ks = append(ks, k)
+	}
+	sort.Slice(ks, func(i, j int) bool {
+		if ks[i][0] != ks[j][0] {
+			return ks[i][0] < ks[j][0]
+		}
+		return ks[i][1] < ks[j][1]
+	})
+	out := make([]string, len(ks))
+	for i, k := range ks {
+		out[i] = "(" + coqStr(k[0]) + ", " + coqStr(k[1]) + ")"
+	}
+	return "[" + strings.Join(out, "; ") + "]"
+}
+
 func coqTriples(m map[[3]string]bool) string {
 	var ks [][3]string
 	for k := range m {
@@ -1615,7 +1832,7 @@ func coqTriples(m map[[3]string]bool) string {
 
 const effectsPrelude = "From Coq Require Import List String.\nFrom Mamba Require Import Effects.Skel.\nImport ListNotations.\nOpen Scope string_scope.\n\n"
 
-const effectsRecord = "Record finfo := { fname : string; fexported : bool; gwrites : list string; swrites : list string; calls : list string; scalls : list string; gostmts : nat; chanops : nat; dwrites : list string; argflow : list (string * string * string); extwrites : list string; dyncalls : list string; unknown : list string }.\n\n"
+const effectsRecord = "Record finfo := { fname : string; fexported : bool; gwrites : list string; swrites : list string; calls : list string; scalls : list string; gostmts : nat; chanops : nat; dwrites : list string; argflow : list (string * string * string); extwrites : list string; dyncalls : list string; unknown : list string; fwrites : list string; fargflow : list (string * string * string); fieldalias : list (string * string); fieldflow : list (string * string) }.\n\n"
 
 func effectsTranslator(repo string) (map[string]string, error) {
 	failed := func(err error) (map[string]string, error) {
@@ -1662,6 +1879,21 @@ func effectsTranslator(repo string) (map[string]string, error) {
 	}
 	if len(ri.errs) > 0 {
 		return failed(fmt.Errorf("the repository does not type-check cleanly or has non-Go sources: %s", strings.Join(ri.errs[:min(len(ri.errs), 3)], "; ")))
+	}
+	fieldNames = map[*types.Var]string{}
+	for _, path := range pkgPaths {
+		pkg := ri.pkgs[path]
+		for _, name := range pkg.Scope().Names() {
+			tn, ok := pkg.Scope().Lookup(name).(*types.TypeName)
+			if !ok {
+				continue
+			}
+			if st, ok := tn.Type().Underlying().(*types.Struct); ok {
+				for i := 0; i < st.NumFields(); i++ {
+					fieldNames[st.Field(i)] = pkg.Name() + "." + tn.Name() + "." + st.Field(i).Name()
+				}
+			}
+		}
 	}
 	// all methods of the repository by name (targets of interface calls)
 	impl := map[string][]*types.Func{}
@@ -1733,7 +1965,7 @@ func effectsTranslator(repo string) (map[string]string, error) {
 					}
 					a := &analyser{info: info, pkg: pkg, mod: mod, fset: fset, taint: map[types.Object]*tinfo{}, fi: fi, ret: map[string]bool{},
 						litVar: map[types.Object]*ast.FuncLit{}, litEsc: map[types.Object]bool{}, litOfVar: map[*ast.FuncLit]types.Object{},
-						impl: impl, callFun: map[ast.Expr]bool{}}
+						impl: impl, callFun: map[ast.Expr]bool{}, freshUse: map[*ast.Ident]bool{}}
 					if r := sig.Recv(); r != nil {
 						a.taint[r] = &tinfo{roots: map[string]types.Type{"recv": r.Type()}, own: 0}
 					}
@@ -1749,6 +1981,7 @@ func effectsTranslator(repo string) (map[string]string, error) {
 						}
 					}
 					a.prepass(fd.Body)
+					a.prepassFresh(fd.Body)
 					a.walk(fd.Body)
 					old := retRoots[fi.key]
 					if old == nil {
@@ -1785,13 +2018,22 @@ func effectsTranslator(repo string) (map[string]string, error) {
 		if n := len(merged); n > 0 && merged[n-1].key == fi.key {
 			m := merged[n-1]
 			for _, pr := range []struct{ dst, src map[string]bool }{{m.gwrites, fi.gwrites}, {m.swrites, fi.swrites}, {m.calls, fi.calls}, {m.scalls, fi.scalls},
-				{m.dwrites, fi.dwrites}, {m.extwrites, fi.extwrites}, {m.dyncalls, fi.dyncalls}, {m.unknown, fi.unknown}} {
+				{m.dwrites, fi.dwrites}, {m.extwrites, fi.extwrites}, {m.dyncalls, fi.dyncalls}, {m.unknown, fi.unknown}, {m.fwrites, fi.fwrites}} {
 				for k := range pr.src {
 					pr.dst[k] = true
 				}
 			}
 			for k := range fi.argflow {
 				m.argflow[k] = true
+			}
+			for k := range fi.fargflow {
+				m.fargflow[k] = true
+			}
+			for k := range fi.fieldalias {
+				m.fieldalias[k] = true
+			}
+			for k := range fi.fieldflow {
+				m.fieldflow[k] = true
 			}
 			m.gostmts += fi.gostmts
 			m.chanops += fi.chanops
@@ -1822,9 +2064,10 @@ func effectsTranslator(repo string) (map[string]string, error) {
 		if fi.exported {
 			exp = "true"
 		}
-		fmt.Fprintf(&sb, "  {| fname := %s; fexported := %s; gwrites := %s; swrites := %s; calls := %s; scalls := %s; gostmts := %d; chanops := %d;\n     dwrites := %s; argflow := %s; extwrites := %s; dyncalls := %s; unknown := %s |}%s\n",
+		fmt.Fprintf(&sb, "  {| fname := %s; fexported := %s; gwrites := %s; swrites := %s; calls := %s; scalls := %s; gostmts := %d; chanops := %d;\n     dwrites := %s; argflow := %s; extwrites := %s; dyncalls := %s; unknown := %s;\n     fwrites := %s; fargflow := %s; fieldalias := %s; fieldflow := %s |}%s\n",
 			coqStr(fi.key), exp, coqList(fi.gwrites), coqList(fi.swrites), coqList(fi.calls), coqList(fi.scalls), fi.gostmts, fi.chanops,
-			coqList(fi.dwrites), coqTriples(fi.argflow), coqList(fi.extwrites), coqList(fi.dyncalls), coqList(fi.unknown), sep)
+			coqList(fi.dwrites), coqTriples(fi.argflow), coqList(fi.extwrites), coqList(fi.dyncalls), coqList(fi.unknown),
+			coqList(fi.fwrites), coqTriples(fi.fargflow), coqPairs(fi.fieldalias), coqPairs(fi.fieldflow), sep)
 	}
 	sb.WriteString("].\n\n")
 	sb.WriteString("(* (function, channel parameter, number of top-level `defer close`, skeleton of the body) *)\n")
